@@ -59,16 +59,16 @@ var entries []entry
 
 func init() {
 	entries = []entry{
-		{"chart", 4800, 130000, 120, runChart},
-		{"strvals", 6000, 260000, 1000, runStrvals},
-		{"values", 4000, 160000, 500, runValues},
-		{"index", 5000, 200000, 500, runIndex},
-		{"manifest", 3000, 90000, 250, runManifest},
-		{"storage", 3000, 90000, 250, runStorage},
-		{"prov", 2400, 60000, 300, runProv},
-		{"ignore", 3000, 100000, 1000, runIgnore},
-		{"plugin", 3000, 100000, 500, runPlugin},
-		{"schema", 4000, 140000, 500, runSchema},
+		{"chart", 4800, 40000, 120, runChart},
+		{"strvals", 6000, 150000, 1000, runStrvals},
+		{"values", 4000, 60000, 500, runValues},
+		{"index", 5000, 100000, 500, runIndex},
+		{"manifest", 3000, 40000, 250, runManifest},
+		{"storage", 3000, 40000, 250, runStorage},
+		{"prov", 2400, 30000, 300, runProv},
+		{"ignore", 3000, 60000, 1000, runIgnore},
+		{"plugin", 3000, 40000, 500, runPlugin},
+		{"schema", 4000, 60000, 500, runSchema},
 	}
 	core.Register(&core.Prop{
 		ID:    "C20",
@@ -145,6 +145,12 @@ func (x *exec) begin(input []byte, mut string) {
 	x.input, x.mut, x.outcome = input, mut, x.outcome[:0]
 	hdr := fmt.Sprintf("# C20 input: case %s entry %s index %d mutation %s (the bytes after the first newline are the input)\n", x.c.ID, x.d.Entry, x.idx, mut)
 	os.WriteFile(x.inFile, append([]byte(hdr), input...), 0o644)
+	if x.verbose {
+		// replay mode: keep every input of the batch
+		p := strings.TrimSuffix(x.inFile, ".bin") + fmt.Sprintf("-%d.bin", x.idx)
+		os.WriteFile(p, input, 0o644)
+		fmt.Printf("  input #%d written to %s\n", x.idx, p)
+	}
 	x.res.Stat("inputs/"+x.d.Entry, 1)
 	x.res.Evals++
 	if len(input) > MaxInput {
